@@ -183,14 +183,15 @@ def stampDriver (b : Bus) (to : ConnId) (m : Msg) : Msg :=
   let m := match b.nameOf to with | some n => m.setDest n | none => m
   m.setNoReply
 
-/-- `bus_transaction_send_from_driver`: stamp, address, gate, queue -/
+/-- the gate and the queueing of an already stamped driver message -/
+def sendStamped (t : Tx) (to : ConnId) (m : Msg) : Tx :=
+  match checkPolicy t.bus none (some to) (some to) m with
+  | (p, some e) => captureError (t.setPending p) (some to) m e
+  | (p, none) => (t.setPending p).emit (.deliver to m)
+
+/-- `bus_transaction_send_from_driver`: stamp, show to monitors, gate, queue -/
 def sendFromDriver (t : Tx) (to : ConnId) (m : Msg) : Tx :=
-  let m := stampDriver t.bus to m
-  let t := capture t none (some to) m
-  let (p, err) := checkPolicy t.bus none (some to) (some to) m
-  match err with
-  | some e => captureError (t.setPending p) (some to) m e
-  | none => (t.setPending p).emit (.deliver to m)
+  sendStamped (capture t none (some to) (stampDriver t.bus to m)) to (stampDriver t.bus to m)
 
 def sendError (t : Tx) (to : ConnId) (inReplyTo : Msg) (e : Err) : Tx :=
   sendFromDriver t to (mkError inReplyTo e)
@@ -516,13 +517,16 @@ def parseMonitorRules : List Bytes → Except Err (List MatchRule)
     ordinary match rules, join the monitor list. (Its pending replies are forgotten too, but the
     NoReply errors that costs its callers are sent by a zero-interval timeout, i.e. after everything
     this dispatch queues: see `sweepMonitors`.) -/
+def installMonitorRules (c : ConnId) (rules : List MatchRule) (b : Bus) : Bus :=
+  b.updConn c fun y => { y with monitorRules := rules }
+
+def joinMonitors (c : ConnId) (x : Conn) (rules : List MatchRule) (b : Bus) : Bus :=
+  (gcRules b { x with monitorRules := rules }).updConn c fun y => { y with rules := [], monitor := true }
+
 def beMonitor (t : Tx) (c : ConnId) (rules : List MatchRule) : Tx :=
   match t.bus.conn? c with
   | none => t
-  | some x =>
-    let t := t.mapBus fun b => b.updConn c fun y => { y with monitorRules := rules }
-    let t := x.owned.foldl (fun t n => removeOwner t n c) t
-    t.mapBus fun b => (gcRules b { x with monitorRules := rules }).updConn c fun y => { y with rules := [], monitor := true }
+  | some x => (releaseAll (t.mapBus (installMonitorRules c rules)) c x.owned).mapBus (joinMonitors c x rules)
 
 def runMethod (t : Tx) (c : ConnId) (m : Msg) (which : Method) : Tx × Option Err :=
   match which with
